@@ -22,6 +22,43 @@ class ElemRef:
         self.lst[self.idx] = v
 
 
+class ListView(list):
+    """A sub-slice `v[a..b]` (also split_at / split_first / chunks …): a list holding the elements, whose element writes go through to the
+    slice it was taken of — so that `v[1..].iter_mut()`, `split_at_mut`, `slice.swap(..)` on a sub-slice update the vector itself.  (Rust's
+    borrow rules guarantee the parent is not written by other means while the view is alive.)  Length-changing operations are not slices'."""
+    def __init__(self, base, a, b):
+        list.__init__(self, base[a:b])
+        self._base, self._off = base, a
+
+    def __setitem__(self, i, val):
+        if isinstance(i, slice):
+            idx = range(*i.indices(len(self)))
+            vals = list(val)
+            if len(vals) != len(idx):
+                raise sym.Unsupported({}, "length-changing assignment into a slice view")
+            for k_, x in zip(idx, vals):
+                self[k_] = x
+            return
+        if i < 0:
+            i += len(self)
+        list.__setitem__(self, i, val)
+        self._base[self._off + i] = val
+
+    def _frozen(self, *a, **k):
+        raise sym.Unsupported({}, "length-changing operation on a slice view")
+    append = extend = insert = pop = remove = clear = __delitem__ = __iadd__ = _frozen
+
+    def reverse(self):
+        vals = list(self)[::-1]
+        for i, x in enumerate(vals):
+            self[i] = x
+
+    def sort(self, *a, **k):
+        vals = sorted(list(self), *a, **k)
+        for i, x in enumerate(vals):
+            self[i] = x
+
+
 class Budget(sym.Unsupported):
     pass
 
@@ -116,7 +153,9 @@ class VInterp(sym.Interp):
                 _, a, b = idx
                 a = 0 if a is None else int(a)
                 b = len(base) if b is None else int(b)
-                return base[a:b]
+                if not (0 <= a <= b <= len(base)):
+                    raise IndexPanic(n, "slice %d..%d out of bounds of a vector of length %d" % (a, b, len(base)))
+                return ListView(base, a, b)
             if getattr(idx, "is_Integer", False):
                 i = int(idx)
                 if not (0 <= i < len(base)):
@@ -581,8 +620,21 @@ class VInterp(sym.Interp):
                 return rv.args[0]
             if name in ("unwrap", "expect"):
                 raise IndexPanic(n, "unwrap on %s" % rv.name)
+            if name in ("ok_or", "ok_or_else") and rv.name in ("Some", "None"):
+                if rv.name == "Some":
+                    return sym.Variant("Ok", list(rv.args))
+                if name == "ok_or":
+                    return sym.Variant("Err", [self.ev(n["args"][0])])
+                return sym.Variant("Err", [self.apply_closure(self._closure_arg(n), [], n)])
+            if name == "map_err" and rv.name == "Err" and n["args"]:
+                try:
+                    return sym.Variant("Err", [self.apply_closure(self._closure_arg(n), list(rv.args), n)])
+                except sym.Unsupported:
+                    return rv
             if name in ("ok_or", "ok_or_else", "map_err"):
                 return rv
+            if name in ("then_some", "then") and False:
+                pass
             if name == "is_some":
                 return sp.true if rv.name == "Some" else sp.false
             if name == "is_none":
@@ -731,24 +783,27 @@ class VInterp(sym.Interp):
             k = int(self.ev(n["args"][0]))
             if k <= 0:
                 raise IndexPanic(n, "windows(0)")
-            return LazyIter([list(v[i:i + k]) for i in range(0, len(v) - k + 1)])
-        if name in ("chunks", "chunks_exact"):
+            return LazyIter([ListView(v, i, i + k) for i in range(0, len(v) - k + 1)])
+        if name in ("chunks", "chunks_exact", "chunks_mut", "chunks_exact_mut"):
             k = int(self.ev(n["args"][0]))
             if k <= 0:
                 raise IndexPanic(n, "chunks(0)")
-            out = [list(v[i:i + k]) for i in range(0, len(v), k)]
-            if name == "chunks_exact":
+            out = [ListView(v, i, min(i + k, len(v))) for i in range(0, len(v), k)]
+            if name.startswith("chunks_exact"):
                 out = [c for c in out if len(c) == k]
             return LazyIter(out)
-        if name in ("split_last", "split_first"):
+        if name in ("split_last", "split_first", "split_last_mut", "split_first_mut"):
             if not v:
                 return sym.Variant("None")
-            return sym.Variant("Some", [(v[-1], list(v[:-1])) if name == "split_last" else (v[0], list(v[1:]))])
-        if name == "split_at":
+            mut_ = name.endswith("_mut")
+            if name.startswith("split_last"):
+                return sym.Variant("Some", [(ElemRef(v, len(v) - 1) if mut_ else v[-1], ListView(v, 0, len(v) - 1))])
+            return sym.Variant("Some", [(ElemRef(v, 0) if mut_ else v[0], ListView(v, 1, len(v)))])
+        if name in ("split_at", "split_at_mut"):
             k = int(self.ev(n["args"][0]))
             if k > len(v):
                 raise IndexPanic(n, "split_at(%d) on a slice of length %d" % (k, len(v)))
-            return (list(v[:k]), list(v[k:]))
+            return (ListView(v, 0, k), ListView(v, k, len(v)))
         if name in ("extend", "extend_from_slice", "append"):
             src = self.deref(self.ev(n["args"][0]))
             src = src.items if isinstance(src, LazyIter) else list(src)
